@@ -28,18 +28,18 @@ CHECKS = {
     "C09": dict(
         engine="stream-xml", category="fault_enumeration", design_ref="§6.1",
         technique="deterministic simulation of the io.Reader seam: seeded delivery schedules, exhaustive truncation and read-error offsets per generated document, sampled corruption; oracle = abstract document the text was generated from + one-bit 'decoder detects an error' predicate",
-        text="Every generated document is pushed through ReadXml under the reference delivery, drawn chunkings (1 byte, inside multi-byte sequences and markup tokens, zero-length reads, EOF with data), every truncation offset, a read error at every offset and sampled corruptions. Fault-free runs must reproduce the abstract document exactly (names, attributes, text merging, comments, PIs, one owned namespace node per in-scope binding); faulted runs must return an error whenever the decoder detects one, never a partial tree with nil error. Also: documents padded across the 4 KiB buffer boundary, a custom-entity parse option, and two Parser objects alive with interleaved Pull calls (each tree must equal the tree of the same bytes parsed alone). Seeded sampling of documents, exhaustive over fault offsets per document: evidence, not proof.",
-        note="Trusts encoding/xml's tokeniser as the detector of malformedness for faulted inputs and the generator bounds of DESIGN §5 (no DTD subset, no literal TAB/LF/CR in attribute values, no BOM, XML 1.0)."),
+        text="Every generated document is pushed through ReadXml under the reference delivery, drawn chunkings (1 byte, inside multi-byte sequences and markup tokens, zero-length reads, EOF with data), every truncation offset, a read error at every offset and sampled corruptions. Fault-free runs must reproduce the abstract document exactly (names, attributes, text merging, comments, PIs, one owned namespace node per in-scope binding); faulted runs must return an error whenever the decoder detects one, never a partial tree with nil error. Also: documents padded across the 4 KiB buffer boundary, seven declared 8-bit charsets, a custom-entity parse option (replacing the decoder's map or adding to it in place), references to entities nobody declared, and two Parser objects alive with interleaved Pull calls (each tree must equal the tree of the same bytes parsed alone). Seeded sampling of documents, exhaustive over fault offsets per document: evidence, not proof.",
+        note="Trusts encoding/xml's tokeniser as the detector of malformedness for faulted inputs and the generator bounds of DESIGN §5 (DOCTYPE declarations incl. internal subsets are written but never referenced, no literal TAB/LF/CR in attribute values, no BOM, XML 1.0). A violation that needs state left by an earlier ReadXml call replays as 'run A, then run B'."),
     "C10": dict(
         engine="events", category="exploration", design_ref="§6.3",
         technique="deterministic simulation of the Parser seam: seeded event histories (incl. surplus end events, deep spines, same-prefix redeclaration) against a stack-machine reference model, plus a goroutine-stack ceiling fault (debug.SetMaxStack in child processes) on 10^5..3x10^6-event flat histories",
-        text="A scripted user-supplied Parser feeds contract-conforming histories into store.CreateInMemory; the tree read back through the public Cursor API must equal a 40-line stack-machine model (shape, node identity, Pos unique/increasing in document order, Parent consistency, owned namespace nodes per in-scope prefix). A second, unrelated build must leave the first tree intact. The stack bound is decided under an injected stack ceiling that scales with nesting depth only (a build that is merely slow is noted, not judged).",
+        text="A scripted user-supplied Parser feeds contract-conforming histories into store.CreateInMemory; the tree read back through the public Cursor API must equal a 40-line stack-machine model (shape, node identity, Pos unique/increasing in document order, Parent consistency, owned namespace nodes per in-scope prefix). A second, unrelated build must leave the first tree intact, and a complete second build started from inside Pull (a parser that itself uses the store) must not disturb either tree. Names repeat (one local name in several namespaces, same names on siblings / parent and child). The stack bound is decided under an injected stack ceiling that scales with nesting depth only (a build that is merely slow is noted, not judged).",
         note="Seeded sampling of histories (<= 2000 events, depth <= 200) plus seven long flat shapes; the root's own Parent() and the order among namespace nodes are not constrained."),
     "C16": dict(
         engine="stream-json", category="fault_enumeration", design_ref="§6.2",
         technique="deterministic simulation of the io.Reader seam: seeded delivery schedules, exhaustive truncation and read-error offsets per generated text, sampled code-point corruption; oracle = generated value tree + an independent strict RFC 8259 reader for faulted texts",
         text="Every generated sequence of JSON values is pushed through ReadJson under the reference delivery, drawn chunkings, every truncation offset, a read error at every offset and sampled corruptions. Clean and still-valid texts must map to the documented #obj/#arr tree (member order, duplicate and odd keys, one text node per scalar, shortest round-tripping numerals); malformed texts (as decided by the independent reader) must produce an error, never a shorter tree.",
-        note="Trusts the harness's own strict JSON reader (cross-checked against the generator on every clean input). Not judged: lone surrogate escapes, numbers outside the double range, adjacent top-level values without white space, empty input."),
+        note="Trusts the harness's own strict JSON reader (cross-checked against the generator on every clean input). Not judged: lone surrogate escapes, adjacent top-level values without white space, empty input. A numeral that denotes no double (1e400) may be rejected or kept literally, but must not become a text that is no numeral."),
     "C17": dict(
         engine="stream-html", category="exploration", design_ref="§6.7",
         technique="deterministic simulation of the io.Reader seam (delivery schedules, read errors, truncation, content corruption as tag-soup source) with a differential oracle: independent html.Parse + plain DOM walk",
@@ -47,8 +47,8 @@ CHECKS = {
         note="The reference is x/net/html itself, as the property states. Names carry at most one colon. Inputs without a leading doctype are only monitored for crashes."),
     "C13": dict(
         engine="history", category="exploration", design_ref="§6.4",
-        technique="deterministic simulation of the caller and of user callbacks: seeded call histories over shared cursors, shared compiled expressions, caller-owned maps and held result slices (aliasing, spare capacity), callbacks that fail, panic, hand out held slices or re-enter Exec; oracle = snapshot invariants + the same query in a fresh isolated world",
-        text="Each run is a history of 3-24 public API calls on 1-3 shared documents. After every operation: documents, held slices, caller-owned maps and the exported face of every compiled expression are unchanged (I1); every query equals the same query in a fresh isolated world - re-parsed documents, re-built expression, re-created bindings (I2); verbatim repeats agree (I3); rebuilding a string gives the same parse structure (I4). Bindings (prefixes, scalar variables, function sets) vary per operation on the same compiled expression. Two oracles do not depend on process state: the isolated evaluation repeated after the call must not change (hidden global state), and every field Unmarshal filled must equal its own tag query evaluated directly.",
+        technique="deterministic simulation of the caller and of user callbacks: seeded call histories over shared cursors, shared compiled expressions, caller-owned maps and held result slices (aliasing, spare capacity), callbacks that fail, panic, hand out held slices or re-enter Exec; oracle = snapshot invariants + the same query in a fresh isolated world + the same run / the same fixed query in a FRESH PROCESS (history test, battery)",
+        text="Each run is a history of 3-24 public API calls on 1-3 shared documents. After every operation: documents, held slices, caller-owned maps and the exported face of every compiled expression are unchanged (I1); every query equals the same query in a fresh isolated world - re-parsed documents, re-built expression, re-created bindings (I2); verbatim repeats agree (I3); rebuilding a string gives the same parse structure (I4). Bindings (prefixes, scalar variables, function sets) vary per operation on the same compiled expression. Two oracles do not depend on process state: the isolated evaluation repeated after the call must not change (hidden global state), and every field Unmarshal filled must equal its own tag query evaluated directly. Three oracles reach state that survives in the process: the last runs of every batch worker are re-executed alone in fresh processes and must observe the same results; a battery of ~150 fixed near-neighbour queries (0/-0, 1/1.0, lang('en')/lang('EN'), p:c/q:c ...) evaluated at drawn points of arbitrary histories must answer what a fresh process answers; bursts of 20-3000 failing or panicking queries must leave earlier queries unchanged. Result.String() is part of every compared result.",
         note="No XPath reference evaluator: the implementation is compared with itself, so defects that do not depend on history cancel (those belong to not-applicable properties). Only public observations are used. I4 replays probabilistically."),
     "C14": dict(
         engine="sched-lib + sched-cli", category="exploration", design_ref="§6.6, §4",
